@@ -398,20 +398,27 @@ theorem hstepR_linear {cfg : Cfg} {w : World} (hi : Inv w) (r : Req) (rw : RaceW
         have hl := loadRace_after hb' hlr
         simp [linearise, hb', hrun, hstep, hl, hlr]
 
+/-- does the history use `writeAt`? -/
+def HOpR.isWriteAt : HOpR → Bool
+  | .writeAt _ _ _ _ => true
+  | _ => false
+
 /-- **Histories with racing replacements are plain histories**: for every history in which
-    loads may be raced by a replacement of the file they open there is a plain history
-    (writes, touches, deletions, loads) with the same final world and the same results of the
-    loads, in order. -/
-theorem hrunR_plain (cfg : Cfg) (ops : List HOpR) : ∀ (w : World), Inv w →
+    loads may be raced by a replacement of the file they open (and every modification is stamped
+    by the clock) there is a plain history (writes, touches, deletions, loads) with the same final
+    world and the same results of the loads, in order. -/
+theorem hrunR_plain (cfg : Cfg) (ops : List HOpR) (hno : ∀ op ∈ ops, op.isWriteAt = false) :
+    ∀ (w : World), Inv w →
     ∃ ops' : List HOp, (hrun cfg w ops').1 = (hrunR true cfg w ops).1 ∧
       (hrun cfg w ops').2.filterMap id = (hrunR true cfg w ops).2.filterMap id := by
   induction ops with
   | nil => intro w _; exact ⟨[], rfl, rfl⟩
   | cons op rest ih =>
     intro w hi
+    have hno' : ∀ op ∈ rest, op.isWriteAt = false := fun o ho => hno o (List.mem_cons_of_mem _ ho)
     cases op with
     | plain p =>
-      obtain ⟨rest', h1, h2⟩ := ih (hstep cfg w p).1 (inv_hstep hi p)
+      obtain ⟨rest', h1, h2⟩ := ih hno' (hstep cfg w p).1 (inv_hstep hi p)
       refine ⟨p :: rest', ?_, ?_⟩
       · simp only [hrun, hrunR, hstepR]; exact h1
       · simp only [hrun, hrunR, hstepR]
@@ -420,16 +427,86 @@ theorem hrunR_plain (cfg : Cfg) (ops : List HOpR) : ∀ (w : World), Inv w →
       obtain ⟨hw, hres⟩ := hstepR_linear (cfg := cfg) hi r rw
       have hi1 : Inv (hstepR true cfg w (.loadRace r rw)).1 := by
         rw [← hw]; exact inv_hrun hi _
-      obtain ⟨rest', h1, h2⟩ := ih _ hi1
+      obtain ⟨rest', h1, h2⟩ := ih hno' _ hi1
       refine ⟨linearise r rw (firedAt cfg w r rw) ++ rest', ?_, ?_⟩
       · rw [hrun_append]; simp only [hrunR]; rw [hw]; exact h1
       · rw [hrun_append]; simp only [hrunR, List.filterMap_append]
         rw [hres, hw, h2]
         cases (hstepR true cfg w (.loadRace r rw)).2 <;> simp
+    | writeAt loc c b m =>
+      have := hno (.writeAt loc c b m) (by simp)
+      simp [HOpR.isWriteAt] at this
 
-/-- the history invariant holds after racing histories too -/
-theorem inv_hrunR {cfg : Cfg} {w : World} (hi : Inv w) (ops : List HOpR) : Inv (hrunR true cfg w ops).1 := by
-  obtain ⟨ops', h, _⟩ := hrunR_plain cfg ops w hi
-  rw [← h]; exact inv_hrun hi ops'
+/-! ### modification times that do not grow -/
+
+/-- the time a modification sets differs from every time the loader remembers for that file
+    (in particular from the file's current time while its cached template is current).  A
+    different content under a remembered time is the known limit of reloading by modification
+    time (`mtime_reuse_serves_stale` in `Props/C15.lean`). -/
+def FreshTime (w : World) (loc : Loc) (m : Nat) : Prop :=
+  ∀ k t m', (k, t) ∈ w.ls.cache.items → w.ls.utd k = some (.mtime loc m') → m' ≠ m
+
+/-- every `writeAt` of the history sets a fresh time, judged in the world it happens in -/
+def ValidR (cfg : Cfg) : World → List HOpR → Prop
+  | _, [] => True
+  | w, op :: ops =>
+    (match op with
+      | .writeAt loc _ _ m => FreshTime w loc m
+      | _ => True) ∧ ValidR cfg (hstepR true cfg w op).1 ops
+
+theorem validR_of_noWriteAt (cfg : Cfg) (ops : List HOpR) (hno : ∀ op ∈ ops, op.isWriteAt = false) :
+    ∀ w, ValidR cfg w ops := by
+  induction ops with
+  | nil => intro _; trivial
+  | cons op rest ih =>
+    intro w
+    refine ⟨?_, ih (fun o ho => hno o (List.mem_cons_of_mem _ ho)) _⟩
+    cases op with
+    | writeAt loc c b m =>
+      have := hno (.writeAt loc c b m) (by simp)
+      simp [HOpR.isWriteAt] at this
+    | _ => trivial
+
+theorem inv_writeAt {w : World} (hi : Inv w) (loc : Loc) (c : Nat) (b : Bool) (m : Nat)
+    (hf : FreshTime w loc m) :
+    Inv { w with fs := fsSet w.fs loc (some ⟨c, b, m⟩), clock := max w.clock (m + 1) } := by
+  refine ⟨?_, ?_, hi.awf, hi.objs, hi.parsedOld, hi.lock⟩
+  · intro l f hfl
+    simp only [fsSet] at hfl ⊢
+    split at hfl
+    · cases hfl; simp only; omega
+    · have := hi.mtimes l f hfl; omega
+  · intro k t hm l m' hutd
+    obtain ⟨h1, h2, h3⟩ := hi.coherent k t hm l m' hutd
+    refine ⟨h1, by simp only; omega, ?_⟩
+    intro f hfl hfm
+    simp only [fsSet] at hfl
+    split at hfl
+    · rename_i e
+      subst e
+      cases hfl
+      exact absurd hfm.symm (hf k t m' hm hutd)
+    · exact h3 f hfl hfm
+
+theorem inv_hstepR {cfg : Cfg} {w : World} (hi : Inv w) (op : HOpR)
+    (hv : match op with
+      | .writeAt loc _ _ m => FreshTime w loc m
+      | _ => True) : Inv (hstepR true cfg w op).1 := by
+  cases op with
+  | plain p => exact inv_hstep hi p
+  | loadRace r rw =>
+    rw [← (hstepR_linear (cfg := cfg) hi r rw).1]; exact inv_hrun hi _
+  | writeAt loc c b m => exact inv_writeAt hi loc c b m hv
+
+/-- the history invariant holds after every valid history: racing replacements, and
+    modifications that set any fresh time, older ones included -/
+theorem inv_hrunR {cfg : Cfg} (ops : List HOpR) : ∀ {w : World}, Inv w → ValidR cfg w ops →
+    Inv (hrunR true cfg w ops).1 := by
+  induction ops with
+  | nil => intro w hi _; exact hi
+  | cons op rest ih =>
+    intro w hi hv
+    simp only [hrunR]
+    exact ih (inv_hstepR hi op hv.1) hv.2
 
 end Genshi.Loader
